@@ -13,10 +13,10 @@ async def run_config(ctx, tree, W, kind, seqs, rnd, results):
     if kind == 'rock':
         conf += 'cache_mem 256 KB\nmaximum_object_size_in_memory 8 KB\n'
     else:
-        conf += 'maximum_object_size_in_memory 1 MB\n'
-    sq = squidctl.Squid(ctx, tree, name='c19-%s%d' % (kind, W), clock=False, workers=W, cache_mem='8 MB', conf_extra=conf)
+        conf += 'maximum_object_size_in_memory 4 MB\n'
+    sq = squidctl.Squid(ctx, tree, name='c19-%s%d' % (kind, W), clock=False, workers=W, cache_mem='32 MB', conf_extra=conf)
     if kind == 'rock':
-        sq.conf_text = sq.conf_text.replace('cache_mem 8 MB\n', '').replace('http_access allow all', 'cache_dir rock %s/rock 16 max-size=1000000\nhttp_access allow all' % sq.run)
+        sq.conf_text = sq.conf_text.replace('cache_mem 32 MB\n', '').replace('http_access allow all', 'cache_dir rock %s/rock 64 max-size=4000000\nhttp_access allow all' % sq.run)
         open(sq.conf, 'w').write(sq.conf_text)
         sq.init_dirs()
     sq.start(wait=60)
